@@ -4,7 +4,7 @@ EXCEL_EPOCH = datetime.datetime(1900, 1, 1)
 
 
 def number_to_datetime(value):
-    offset = 2 if value > 59 else 1
+    offset = 2 if value >= 60 else 1
     delta = datetime.timedelta(
         days=int(value) - offset, seconds=(value % 1) * 24 * 60 * 60)
     return EXCEL_EPOCH + delta
